@@ -4,16 +4,20 @@
 (* freedom is what the base specification leaves open plus:                                         *)
 (*   - between start_b and start_e of an accepted start (the thread exists, the caller has not yet  *)
 (*     returned) a concurrent stop may be lost and a concurrent status may still be IDLE,           *)
-(*   - Dev_LateStop: the named deviation of the code as it stands (reported, never silently taken). *)
+(*   - Dev_LateStop, Dev_EndBeforeHandle: named deviations of the code as it stands (reported as     *)
+(*     findings, never silently taken).  Dev_EndBeforeHandle: a sequence that is over before         *)
+(*     start_sequence has stored the thread handle leaves the handle of a thread that still has to   *)
+(*     poll: until that poll is done read_status says BUSY (also in that very poll, so the status    *)
+(*     parameter stays BUSY) and start_sequence is refused.                                           *)
 EXTENDS Sequencer, Json, IOUtils, TLCExt, SequencesExt, Integers
 Traces == JsonDeserialize(IOEnv.TRACE_FILE)
 NT == Len(Traces)
-VARIABLES t, l, devs, starting, runid, stopAt
-tvars == <<t, l, devs, starting, runid, stopAt>>
+VARIABLES t, l, devs, starting, runid, stopAt, ghost
+tvars == <<t, l, devs, starting, runid, stopAt, ghost>>
 ASSUME \A j \in 1 .. NT : TLCSet(j, 1)
 Ev == Traces[t][l]
 
-TInit == SInit /\ t \in 1 .. NT /\ l = 1 /\ devs = {} /\ starting = "no" /\ runid = 0 /\ stopAt = -1
+TInit == SInit /\ t \in 1 .. NT /\ l = 1 /\ devs = {} /\ starting = "no" /\ runid = 0 /\ stopAt = -1 /\ ghost = FALSE
 
 ObsStatus(e) == [code |-> e.code, word |-> e.word, k |-> e.k]
 SameStatus(a, b) == a.code = b.code /\ (a.code # "BUSY" => (a.word = b.word /\ a.k = b.k))
@@ -21,54 +25,60 @@ SameStatus(a, b) == a.code = b.code /\ (a.code # "BUSY" => (a.word = b.word /\ a
 (* (event times are in half ticks) *)
 EndInTime == (pc' = "none" /\ stopflag /\ stopAt >= 0) => Ev.vt <= stopAt + 2 * MaxWait
 
+Settled == (~alive /\ owed = 0 /\ starting = "no") => cached.code # "BUSY"
+
 TStep ==
   /\ l <= Len(Traces[t])
   /\ l' = l + 1 /\ t' = t
-  /\ \/ /\ Ev.ev = "init" /\ fm = Ev.fm /\ UNCHANGED <<svars, devs, starting, runid, stopAt>>
+  /\ \/ /\ Ev.ev = "init" /\ fm = Ev.fm /\ UNCHANGED <<svars, devs, starting, runid, stopAt, ghost>>
      \/ /\ Ev.ev = "start_b" /\ starting = "no"
-        /\ Start(Ev.seq)
+        /\ \/ Start(Ev.seq) /\ UNCHANGED devs
+           \/ ghost /\ ~alive /\ Refuse /\ devs' = devs \cup {"Dev_EndBeforeHandle"}
         /\ starting' = IF last'.ok THEN "ok" ELSE "refused"
         /\ runid' = IF last'.ok THEN Ev.id ELSE runid
         /\ stopAt' = IF last'.ok THEN -1 ELSE stopAt
-        /\ UNCHANGED devs
+        /\ UNCHANGED ghost
      \/ /\ Ev.ev = "start_e" /\ starting # "no" /\ Ev.ok = (starting = "ok")
         /\ starting' = "no"
+        /\ ghost' = IF starting = "ok" THEN (pc = "none" /\ owed > 0) ELSE ghost
         /\ UNCHANGED <<svars, devs, runid, stopAt>>
      \/ /\ Ev.ev = "stop"
         /\ \/ Stop
            \/ starting = "ok" /\ UNCHANGED svars
         /\ stopAt' = IF stopflag' /\ ~stopflag THEN Ev.vt ELSE stopAt
-        /\ UNCHANGED <<devs, starting, runid>>
+        /\ UNCHANGED <<devs, starting, runid, ghost>>
      \/ /\ Ev.ev = "call" /\ pc = "call" /\ Ev.k = k /\ Ev.i = i /\ Ev.n = n + 1 /\ Ev.run = runid /\ Ev.id = runid
         /\ Call
-        /\ UNCHANGED <<devs, starting, runid, stopAt>>
+        /\ UNCHANGED <<devs, starting, runid, stopAt, ghost>>
      \/ /\ Ev.ev = "ret" /\ pc = "in" /\ Ev.k = k /\ Ev.i = i /\ Ev.res = Script(seq[k])[i + 1]
         /\ Ret /\ EndInTime
-        /\ UNCHANGED <<devs, starting, runid, stopAt>>
+        /\ UNCHANGED <<devs, starting, runid, stopAt, ghost>>
      \/ /\ Ev.ev = "wake" /\ pc = "sleep" /\ Ev.d = Wait(seq[k])
         /\ \/ Wake /\ EndInTime /\ UNCHANGED devs
            \/ Dev_LateStop /\ devs' = devs \cup {"Dev_LateStop"}
-        /\ UNCHANGED <<starting, runid, stopAt>>
+        /\ UNCHANGED <<starting, runid, stopAt, ghost>>
      \/ /\ Ev.ev = "cleanup" /\ pc = "cleanup" /\ Ev.k = k /\ Ev.res = Cleanup(seq[k]) /\ Ev.again = (res = "again")
         /\ CleanupAct /\ EndInTime
-        /\ UNCHANGED <<devs, starting, runid, stopAt>>
+        /\ UNCHANGED <<devs, starting, runid, stopAt, ghost>>
      \/ /\ Ev.ev = "status"
-        /\ IF starting = "ok" THEN Ev.code \in {"BUSY", "IDLE"}
-           ELSE /\ Ev.code = Status.code
-                /\ TextBinding(pc) => (Ev.word = Status.word /\ Ev.k = Status.k)
+        /\ \/ /\ IF starting = "ok" THEN Ev.code \in {"BUSY", "IDLE"}
+                 ELSE /\ Ev.code = Status.code
+                      /\ TextBinding(pc) => (Ev.word = Status.word /\ Ev.k = Status.k)
+              /\ UNCHANGED devs
+           \/ ghost /\ ~alive /\ Ev.code = "BUSY" /\ devs' = devs \cup {"Dev_EndBeforeHandle"}
         /\ cached' = ObsStatus(Ev)
-        /\ UNCHANGED <<seq, k, i, n, pc, res, stopflag, out, owed, last, fm, devs, starting, runid, stopAt>>
+        /\ UNCHANGED <<seq, k, i, n, pc, res, stopflag, out, owed, last, fm, starting, runid, stopAt, ghost>>
      \/ /\ Ev.ev = "end" /\ owed > 0 /\ owed' = owed - 1
         /\ SameStatus(Ev.cached, cached)
+        /\ ghost' = (ghost /\ owed' > 0)
         /\ UNCHANGED <<seq, k, i, n, pc, res, stopflag, out, cached, last, fm, devs, starting, runid, stopAt>>
      \/ /\ Ev.ev = "quiet" /\ pc = "none" /\ owed = 0 /\ starting = "no"     \* all threads are gone
         /\ SameStatus(Ev.cached, cached) /\ SameStatus(Ev.live, Status)
-        /\ UNCHANGED <<svars, devs, starting, runid, stopAt>>
+        /\ UNCHANGED <<svars, devs, starting, runid, stopAt, ghost>>
+  (* when no sequence is alive and every finished thread has polled, the status parameter is not BUSY *)
+  /\ Settled' \/ "Dev_EndBeforeHandle" \in devs'
 
 TSpec == TInit /\ [][TStep]_<<svars, tvars>>
-
-(* when no sequence is alive and every finished thread has polled, the status parameter is not BUSY *)
-Settled == (~alive /\ owed = 0 /\ starting = "no") => cached.code # "BUSY"
 
 Track == TLCSet(t, IF l > TLCGet(t) THEN l ELSE TLCGet(t))
 Done == (l = Len(Traces[t]) + 1) => PrintT(<<"DEVS", t, ToJson(devs)>>)
